@@ -250,6 +250,14 @@ class Problem(  # type: ignore[misc]
 
     def clone(self):
         new_p = Problem(self._name, self._env)
+        self._clone_problem_to(new_p)
+        return new_p
+
+    def _clone_problem_to(self, new_p: "Problem"):
+        """
+        Copies everything a `Problem` holds into `new_p`, a freshly created `Problem`
+        (or instance of a class derived from `Problem`) with the same name and environment.
+        """
         UserTypesSetMixin._clone_to(self, new_p)
         ObjectsSetMixin._clone_to(self, new_p)
         FluentsSetMixin._clone_to(self, new_p)
@@ -268,10 +276,12 @@ class Problem(  # type: ignore[misc]
         new_p._fluents_assigned = {
             t: d.copy() for t, d in self._fluents_assigned.items()
         }
+        new_p._fluents_inc_dec = {
+            t: fs.copy() for t, fs in self._fluents_inc_dec.items()
+        }
 
         # last as it requires actions to be cloned already
         MetricsMixin._clone_to(self, new_p, new_actions=new_p)
-        return new_p
 
     def has_name(self, name: str) -> bool:
         """
